@@ -850,6 +850,18 @@ def witnesses(ctx):
                           {"mesh": meshes.mesh_descr(m), "kind": "line", "x": [x], "err": err,
                            "returned": None if cells is None else cells.tolist()},
                           {"what": "finder-raises", "cause": "other", "kind": "line"})
+    # strongly sheared quadrilaterals (one diagonal less than half the other, either one): finder through the split
+    import skfem as _sk
+    for shear_ in (1.5, -1.5, 1.25):
+        mq = _sk.MeshQuad1.init_tensor(np.array([0., 0.5, 1., 1.5, 2.]), np.array([0., 0.5, 1., 1.5]))
+        pq = mq.p.copy()
+        pq[0] = pq[0] + shear_ * pq[1]
+        for flip in (False, True):
+            tq = mq.t[[1, 2, 3, 0]] if flip else mq.t          # both diagonals take the role of "0-2"
+            mqs = _sk.MeshQuad1(pq, tq)
+            ctx.case({"witness": "sheared-quads", "shear": shear_, "rotated-local-order": flip}, nontrivial=True)
+            finder_search(ctx, mqs, "quad", {"kind": "quad", "gen": "witness-sheared"}, [], npts=24)
+            corr_split(ctx, mqs, "quad")
     # F8 (ElementLinePp table cache), FC14b (trailing axes, tensor valued), FC14c (ElementTriN3)
     m1 = MeshLine1(np.array([[0., 0.25, 0.75, 1.5]]), np.array([[0, 1, 2], [1, 2, 3]], dtype=np.int32))
     pts1 = [np.array([v]) for v in (0.125, 0.5, 0.625, 1.0, 1.25, 0.0, 1.5)]
@@ -906,6 +918,39 @@ def large_batches(ctx):
                 viol(ctx, "probes on a large batch raised " + exc_kind(ex), {"element": name, "npts": npts,
                                                                              "err": repr(ex)},
                      {"what": "probes-raise", "element": name})
+
+
+def rectangular_tensors(ctx):
+    """tensor valued bases whose component shape is NOT square (2x3, 3x2, 1x2): interpolator at the quadrature
+    points (flat and with trailing axes) = interpolate, component by component, with the component axes in
+    the order (row, column)"""
+    import skfem
+    from skfem import Basis, ElementVector
+    cases = [(skfem.MeshTri1().refined(1), lambda: ElementVector(ElementVector(skfem.ElementTriP1(), 3), 2), (2, 3)),
+             (skfem.MeshTri1().refined(1), lambda: ElementVector(ElementVector(skfem.ElementTriP1(), 2), 3), (3, 2)),
+             (skfem.MeshTet1(), lambda: ElementVector(ElementVector(skfem.ElementTetP1(), 2), 3), (3, 2))]
+    rs = np.random.RandomState(ctx.seed + 141)
+    for m, mk, shp in cases:
+        try:
+            basis = Basis(m, mk())
+            y = rs.randint(-8, 8, size=basis.N) / 4.0
+            ref = np.asarray(basis.interpolate(y).value)                 # shp + (nt, nq)
+            xq = basis.global_coordinates().value                        # dim x nt x nq
+            ctx.case({"rectangular-tensor": list(shp), "mesh": type(m).__name__}, nontrivial=True)
+            ctx.count("interpolator:rectangular-tensor")
+            flat = np.asarray(basis.interpolator(y)(xq.reshape(xq.shape[0], -1)))
+            trail = np.asarray(basis.interpolator(y)(xq))
+            ok = ref.shape[:2] == shp and flat.shape == shp + (xq.shape[1] * xq.shape[2],) and trail.shape == ref.shape \
+                and np.allclose(flat.reshape(ref.shape), ref, atol=1e-12) and np.allclose(trail, ref, atol=1e-12)
+            if not ok:
+                viol(ctx, "interpolator of a tensor valued basis with a non-square component shape differs from "
+                     "interpolate at the quadrature points (component axes, values)",
+                     {"mesh": type(m).__name__, "components": list(shp), "shape_flat": list(flat.shape),
+                      "shape_trailing_axes": list(trail.shape), "shape_interpolate": list(ref.shape)},
+                     {"what": "interpolator-tensor-shape", "components": list(shp)})
+        except Exception as ex:
+            viol(ctx, "interpolator of a rectangular tensor valued basis raised " + exc_kind(ex),
+                 {"components": list(shp), "err": repr(ex)}, {"what": "probes-raise", "element": "nested-vector"})
 
 
 def parse_element(name):
@@ -1044,6 +1089,10 @@ def run(ctx):
                           {"what": "finder-batch-no-raise"})
     # ---- fixed witnesses of the defects this check found on the pinned tree (first inputs of every run)
     witnesses(ctx)
+    try:
+        rectangular_tensors(ctx)
+    except Exception as ex:
+        viol(ctx, "rectangular tensor check raised " + exc_kind(ex), {"err": repr(ex)}, {"what": "probes-raise"})
     try:
         large_batches(ctx)
     except Exception as ex:
